@@ -14,6 +14,7 @@ Case (JSON):
 The op language is documented in harness/ex_thr.c (do_op).  The executor first runs every workload alone
 (one Cello Thread at a time), then all of them at once, and prints both digests; this module compares them.
 """
+import os
 import re
 from hypothesis import strategies as st
 from .. import build
@@ -42,9 +43,9 @@ RULE = ("case = T in 2..16 workloads (thread i runs w[i mod len(w)], so some cas
         "counter == number of increments and flag never seen set; joiner sees every write and the done mark. "
         "non-trivial = measured (global op counter stamped at every op): >= 2 workloads whose [first op, last op] "
         "intervals intersect AND >= 1 collection (forced, or a finaliser run by a threshold collection) or throw whose "
-        "stamp lies strictly inside another workload's interval. distinct = distinct case JSON. extra phase: 40 fixed "
-        "stress programs (lock / exception / churn / thread-local / join heavy, T in 2,4,8,16, both builds), each "
-        "repeated 6 times.")
+        "stamp lies strictly inside another workload's interval. distinct = distinct case JSON. extra phase: 30 fixed "
+        "stress programs (lock / exception / churn / thread-local / join heavy; T in 2,4,8,16; both builds), each "
+        "run 3 times.")
 
 ASSUMPTIONS = [
     "every workload is bounded (no waits except the start signal given by main after all call()s returned, and "
@@ -189,7 +190,7 @@ def _workload(draw, nmutex, maxops, maxchurn):
     prof = draw(st.sampled_from(["mixed", "mixed", "cont", "churn", "exc", "tls", "lock"]))
     names = PROFILES[prof]
     raw = draw(st.lists(st.tuples(st.sampled_from(names), st.integers(0, 4000), st.integers(0, 4000)),
-                        min_size=3, max_size=maxops))
+                        min_size=6, max_size=maxops))
     ops = []
     for (nm, a, b) in raw:
         xb = draw(st.binary(min_size=2, max_size=20)) if nm == "ex" else b""
@@ -230,7 +231,7 @@ def _case(draw, tier):
             dc = dc % 150
         jl.append([ln, seed, dk, dc, mid, nint, slen, nalloc])
     return {"cfg": draw(st.sampled_from(["asan", "plain"])), "T": T, "main": main, "gcthr": gcthr,
-            "barrier": draw(st.sampled_from([0, 1, 1])), "nmutex": nmutex, "w": w, "joins": jl}
+            "barrier": draw(st.sampled_from([0, 1, 1, 1])), "nmutex": nmutex, "w": w, "joins": jl}
 
 
 def strategy(tier):
@@ -375,6 +376,7 @@ def _stress(kind, T, cfg):
         for r in range(8):
             ops += ["ob %d %d" % (r % NOBJ, 5 + 4 * r), "ch 150", "ow %d" % (r % NOBJ), "cp 0 %d 1" % r, "cp 1 %d %d" % (r, r * 7),
                     "gc", "ow %d" % ((r + 1) % NOBJ), "cd 0", "cd 1", "od %d" % (r % NOBJ), "sb 6 %d" % r]
+        ops = [o.replace("ch 150", "ch 80") for o in ops]
         w = [{"ops": ops, "ys": [[4, 0, 1], [12, 1, 1500], [40, 0, 3]]}]
     elif kind == "tls":
         ops = []
@@ -388,21 +390,28 @@ def _stress(kind, T, cfg):
     joins = [[64, 3, 1, 2999, 4, 6, 25, 6], [32, 4, 2, 120, 0, 3, 10, 2]] if kind == "join" else []
     main = 1 if kind in ("exc", "churn") and T in (4, 16) else 0
     return {"cfg": cfg, "T": T, "main": main, "gcthr": 0 if main else (1 if T == 8 else 0), "barrier": 1, "nmutex": 3 if kind == "lock" else nm,
-            "w": w, "joins": joins, "rep": 6}
+            "w": w, "joins": joins, "rep": 3}
+
+
+STRESS_SHAPES = [(2, "asan"), (2, "plain"), (4, "asan"), (8, "plain"), (16, "asan"), (16, "plain")]
 
 
 def extra_phase(ctx, tier, stats, sample_fn):
+    """Fixed stress programs.  core confirms extra-phase failures 3/3, which a schedule-dependent failure
+    cannot promise, so every stress case carries its own repetition count ("rep")."""
     fails = []
     n = 0
+    if os.environ.get("VERIF_C13_NOSTRESS"):          # sensitivity experiments: generated cases only
+        return {"fails": [], "extra": {"stress_programs": 0}}
     for kind in ("lock", "exc", "churn", "tls", "join"):
-        for T in (2, 4, 8, 16):
-            for cfg in ("asan", "plain"):
-                case = _stress(kind, T, cfg)
-                res = run_case(ctx, case)
-                stats.add(case, res, sample_fn)
-                n += 1
-                if res.fail:
-                    fails.append((case, "[stress %s T=%d %s] %s" % (kind, T, cfg, res.fail)))
+        for (T, cfg) in STRESS_SHAPES:
+            case = _stress(kind, T, cfg)
+            res = run_case(ctx, case)
+            stats.add(case, res, sample_fn)
+            n += 1
+            if res.fail:
+                fails.append((case, "[stress %s T=%d %s] %s" % (kind, T, cfg, res.fail)))
+                break
         if fails:
             break
     return {"fails": fails, "extra": {"stress_programs": n}}
